@@ -84,6 +84,15 @@ CLAIMED["C17"] = dict(
     technique="jaxpr symbolic execution to polynomials + algebraic expectation over sign probes + z3 identity queries",
     design="§4 C17", note=DIRECT_NOTE)
 
+CLAIMED["C11"] = dict(
+    text="Bounded symbolic check of the real constructors: jet_lift / jet_lift_max of ODE right-hand sides and residuals, "
+         "residual_from_ode, residual_from_stack and linearize() of the TS0/TS1 constraints of all three factorisations are "
+         "traced on polynomial constraints with symbolic coefficients, Taylor coefficients and time; z3 decides equality "
+         "with the exact total-derivative operator (lifting) resp. with the constraint value and its full / per-dimension / "
+         "trace-averaged Jacobian (linearisation). The admissible lift_by range is enumerated concretely.",
+    technique="jaxpr symbolic execution to polynomials + z3 (NRA) identity queries; float64 replay",
+    design="§4 C11", note=DIRECT_NOTE)
+
 NOT_APPLICABLE = {
     "C01": "Global error vs the true (transcendental) ODE solution and observed convergence rates in floating point "
            "cannot be expressed as a bounded real-arithmetic query over the code; its mechanisms are decided under C02, C06, C07, C09.",
